@@ -140,12 +140,28 @@ def read(p):
         return None
 
 
+def strace_works():
+    try:
+        p = subprocess.run(["strace", "-f", "-e", "trace=write", "-o", "/dev/null", "/bin/true"],
+                           stdout=subprocess.PIPE, stderr=subprocess.PIPE, timeout=30)
+        return p.returncode == 0
+    except Exception:
+        return False
+
+
 def run(self):
+    if not strace_works():
+        # an environment without ptrace says nothing about the tree: no alarm, but say so
+        self.notes.append("c19_fs: strace/ptrace not usable here -- crash/fault exploration of writeSettings was SKIPPED "
+                          "(theorem crash_atomic is proved, but its protocol hypothesis was not re-validated on this run)")
+        self.cov["c19_fs"] = dict(skipped="strace unavailable")
+        return
     hb, _ = vp.build_harness()
     base = os.path.join(vp.scratch(), "c19fs")
     shutil.rmtree(base, ignore_errors=True)
     os.makedirs(base)
     env = dict(vp.GOENV, GOMAXPROCS="1", GOGC="off")
+    self.cov["trusted_base"] = self.cov.get("trusted_base", []) + ["strace 6.x --inject (kill / error at a chosen system call)"]
     variants = [(None, 1), (1, 2), (3, 1), (2, 4), (4, 0)]
     if self.tier == "thorough":
         variants += [(None, 6), (6, 12), (12, 3), (1, 1), (0, 5), (5, 5), (8, 2)]
